@@ -67,7 +67,8 @@ def loads(s):
     return dec(json.loads(s))
 
 
-def tree_digest(root="/repo/src/whoosh"):
+def tree_digest(root=None):
+    root = root or (os.environ.get("WHOOSIM_REPO", "/repo") + "/src/whoosh")
     h = hashlib.sha256()
     for d, dirs, files in sorted(os.walk(root)):
         dirs.sort()
